@@ -32,19 +32,17 @@ fn apply(o: &mut GeneratorOptions, name: &str, v: bool) {
 /// to a real GeneratorOptions; the object must equal the canonical object of the option number the
 /// specification derives, is_tlsh_compatible must agree and finalizing fixed generators with it must
 /// give that option number's result.
-pub fn replay_opts(path: &str, out: &mut Out) -> u64 {
+pub fn replay_opts(path: &str, fans_path: &str, out: &mut Out) -> u64 {
     use serde_json::Value;
-    use tlsh::FuzzyHashType;
-    let img = |h: &tlsh::Tlsh| -> Vec<u8> {
-        let mut v = Vec::new();
-        v.extend_from_slice(h.checksum().data());
-        v.push(h.length().value());
-        v.push(h.qratios().value());
-        v.extend_from_slice(h.body().data());
-        v
-    };
-    // generators whose 32 results are not all alike: sparse 60 bytes, 30 bytes, 49 bytes, 300 mixed bytes
-    let inputs: Vec<Vec<u8>> = vec![
+    // The fixed generators are set up through a recording Session: `fans_path` receives an ordinary
+    // generator trace (gen_new / gen_update / gen_inject / gen_fin) which the driver has TLC validate
+    // against Generator.tla / Reference.tla.  The 32 results per generator used below are therefore the
+    // specification's, or the run is a violation before any history is looked at.
+    let mut fans_out = Out::create(fans_path);
+    let v = variant("Normal");
+    let mut s = crate::fam_gen::Session::new(&mut fans_out, v);
+    // generators whose 32 results are not all alike: sparse 60 bytes, 30 bytes, 49 bytes, 300 mixed bytes ...
+    let mut inputs: Vec<Vec<u8>> = vec![
         (0..60u8).map(|i| b"ABCDEFGHIJKLMNOPQRST"[(i % 20) as usize]).collect(),
         (0..30u8).map(|i| i.wrapping_mul(37).wrapping_add(11)).collect(),
         (0..49u8).map(|i| i.wrapping_mul(101).wrapping_add(7)).collect(),
@@ -53,14 +51,6 @@ pub fn replay_opts(path: &str, out: &mut Out) -> u64 {
         (0..400u32).map(|i| b"abcd"[(i % 4) as usize]).collect(),
         (0..100u32).map(|i| b"abcd"[(i % 4) as usize]).collect(),
     ];
-    let mut gens: Vec<TlshGenerator> = inputs
-        .iter()
-        .map(|d| {
-            let mut g = TlshGenerator::new();
-            g.update(d);
-            g
-        })
-        .collect();
     // an input of at least 256 bytes that is half-empty but not three-quarter-empty (searched: periods 4..40)
     for p in 4..40usize {
         let pat: Vec<u8> = (0..p).map(|i| ((i * i * 7 + i * 13 + p) % 251) as u8).collect();
@@ -68,9 +58,21 @@ pub fn replay_opts(path: &str, out: &mut Out) -> u64 {
         let mut g = TlshGenerator::new();
         g.update(&d);
         if matches!(g.finalize_with_options(&options(1)), Err(tlsh::GeneratorError::BucketsAreHalfEmpty)) && g.finalize_with_options(&options(9)).is_ok() {
-            gens.push(g);
+            inputs.push(d);
             break;
         }
+    }
+    let mut gens: Vec<Box<dyn GenObj>> = Vec::new();
+    let mut fans: Vec<Vec<HRes>> = Vec::new();
+    let mut keep = |s: &mut crate::fam_gen::Session| {
+        s.fin(0);
+        fans.push((0..32u8).map(|o| s.g(0).fin(o).v.unwrap_or(Err("PANIC".into()))).collect());
+        gens.push(s.g(0).clone_box().v.expect("clone"));
+    };
+    for d in inputs.iter() {
+        s.new_gen(0);
+        s.update(0, d);
+        keep(&mut s);
     }
     // a state with huge counters on which the legacy f32 and the pure-integer Q ratios differ (through the hook)
     let mut x = 0x9e3779b97f4a7c15u64;
@@ -85,17 +87,17 @@ pub fn replay_opts(path: &str, out: &mut Out) -> u64 {
             *b = (1u32 << 24) + (x % ((1u64 << 31) - (1u64 << 24))) as u32;
         }
         g.verif_import(&st);
-        let a = g.finalize_with_options(&options(0)).map(|h| img(&h)).map_err(|e| format!("{:?}", e));
-        let b = g.finalize_with_options(&options(2)).map(|h| img(&h)).map_err(|e| format!("{:?}", e));
+        let a = g.finalize_with_options(&options(0));
+        let b = g.finalize_with_options(&options(2));
         if a.is_ok() && b.is_ok() && a != b {
-            gens.push(g);
+            s.inject(0, &st);
+            keep(&mut s);
             break;
         }
     }
-    let fans: Vec<Vec<HRes>> = gens
-        .iter()
-        .map(|g| (0..32u8).map(|o| g.finalize_with_options(&options(o)).map(|h| img(&h)).map_err(|e| format!("{:?}", e))).collect())
-        .collect();
+    drop(keep);
+    drop(s);
+    fans_out.flush();
     let text = std::fs::read_to_string(path).expect("replay file");
     let (mut bad, mut n) = (0u64, 0u64);
     for (ln, line) in text.lines().enumerate() {
@@ -123,7 +125,7 @@ pub fn replay_opts(path: &str, out: &mut Out) -> u64 {
             why.push("is_tlsh_compatible differs".into());
         }
         for (g, fan) in gens.iter().zip(fans.iter()) {
-            let got = g.finalize_with_options(&o).map(|h| img(&h)).map_err(|e| format!("{:?}", e));
+            let got = g.fin_with(&o).v.unwrap_or(Err("PANIC".into()));
             if got != fan[num as usize] {
                 why.push(format!("finalize differs from the result of option number {}", num));
                 break;
